@@ -40,12 +40,14 @@ inline L quarter_meridian(L a, L f) {
 }
 
 // GeodesicExact.hpp: about 40 nm on WGS84; table by b/a for a quarter meridian of 10 000 km
-inline L geod_exact_doc(L a, L f) {
+inline L geod_exact_nm(L f) {
   static const L xs[] = {1 / 128.L, 1 / 64.L, 1 / 32.L, 1 / 16.L, 1 / 8.L, 1 / 4.L, 1 / 2.L, 1, 2, 4, 8, 16, 32, 64, 128};
   static const L ys[] = {387, 345, 269, 210, 115, 69, 36, 15, 25, 96, 318, 985, 2352, 6008, 19024};
   L nm = interp_loglog(xs, ys, 15, 1 - f);
-  nm = std::max(nm, 40.0L);     // text: "the error is about 40 nm instead of 15 nm"
-  return nm * 1e-9L * quarter_meridian(a, f) / 1e7L;
+  return std::max(nm, 40.0L);     // text: "the error is about 40 nm instead of 15 nm"
 }
+inline L geod_exact_doc(L a, L f) { return geod_exact_nm(f) * 1e-9L * quarter_meridian(a, f) / 1e7L; }
+// relative degradation of the exact solver's accuracy with eccentricity (1 for b/a in [1/2, 2])
+inline L geod_exact_degr(L f) { return geod_exact_nm(f) / 40.0L; }
 
 }  // namespace tol
